@@ -198,7 +198,13 @@ def replay_big(ctx, thorough):
         ctx.traces += 1
         if rec['chunked'] and keep is None:
             keep = rec
-    ctx.extra['chunk_sizes_observed'] = sizes
+    summ = {}
+    for x in sizes:
+        d = summ.setdefault(x['n'], {'n': x['n'], 'methods': [], 'observed_equals_Chunks': True})
+        if x['method'] not in d['methods']:
+            d['methods'].append(x['method'])
+        d['observed_equals_Chunks'] = d['observed_equals_Chunks'] and x['observed_equals_Chunks']
+    ctx.extra['chunk_sizes_observed'] = list(summ.values())
     ctx.sample({'kind': 'big', 'shape': recs[0]['shape'], 'rad': recs[0]['rad'], 'thr': recs[0]['thr'],
                 'n_centres': len(recs[0]['centres']), 'first_centres': recs[0]['centres'][:5],
                 'first_neigh': recs[0]['neigh'][:2]})
@@ -265,9 +271,7 @@ def traces(ctx, n):
     e1 = next(e for e in c1 if e['op'] == 'vol' and e['centres'] and len(e['neigh'][0]) > 1)
     e1['neigh'][0] = e1['neigh'][0][:-1]                       # one voxel dropped from a searchlight
     e2 = next(e for e in c2 if e['op'] == 'vol' and e['centres'])
-    e2['centres'] = e2['centres'][1:] + [e2['centres'][0]]     # centre order rotated / first dropped
-    if len(e2['centres']) == 1:
-        e2['centres'] = [e2['centres'][0] + 1]
+    e2['centres'] = e2['centres'][:-1]                         # an accepted centre missing (its list kept)
     e3 = next(e for e in c3 if e['op'] == 'nb')
     e3['out'] = e3['out'] + [[e3['centre'][0] + 50, 0, 0]]      # a voxel outside the sphere added
     before = ctx.traces
@@ -277,7 +281,7 @@ def traces(ctx, n):
     got = sorted(i for i, _ in rej)
     if got != [1, 2, 3]:
         raise MachineryError(f'trace self-test: corrupted traces 1,2,3 must be rejected and 0 accepted, got rejected={got}')
-    ctx.extra['trace_selftest'] = 'original accepted; dropped neighbour, rotated centres, foreign voxel: all rejected'
+    ctx.extra['trace_selftest'] = 'original accepted; dropped neighbour, missing centre, foreign voxel: all rejected'
     return len(trs)
 
 
